@@ -40,7 +40,7 @@ S_OTHER = {"type": "record", "name": "Other", "fields": [{"name": "zz", "type": 
 Z = {"type": "record", "name": "Zero", "fields": [{"name": "n", "type": "null"}]}
 
 OPS_S = ["w_small", "w_large", "w_bad_first", "w_bad_last", "flush", "copy_null", "copy_deflate", "copyiter_null",
-         "reopen_none", "reopen_same", "reopen_diff", "reopen_codec", "reopen_meta", "reopen_marker", "reopen_midpos", "side_file"]
+         "reopen_none", "reopen_same", "reopen_diff", "reopen_codec", "reopen_meta", "reopen_marker", "reopen_midpos", "side_file", "reopen_samecanon", "w_omit_b"]
 OPS_Z = ["w_zero", "w_zero_omitted", "flush", "copy_null", "reopen_none", "reopen_codec", "side_file"]
 DEPTH = {"quick": 5, "thorough": 7}
 PREFIX = 2
@@ -57,6 +57,9 @@ def configs(tier):
     out.append(("SF", "null", "one", False))
     out.append(("SF", "deflate", "huge", False))
     out.append(("SF", "null", "mid", True))
+    # codec names in another letter case: either refused when the file is created, or a file that reads back like any other
+    out.append(("S", "Deflate", "mid", False))
+    out.append(("S", "NULL", "one", False))
     for codec in codecs[:2]:
         for iv in ("one", "huge"):
             out.append(("Z", codec, iv, False))
@@ -157,6 +160,10 @@ class World:
             self._write({"a": True, "b": "s", "c": k}, True)
         elif op == "w_bad_last":
             self._write({"a": k, "b": "ok", "c": "not-an-int"}, True)
+        elif op == "w_omit_b":
+            # the file's schema gives b no default: a record without b is never acceptable, whatever schema object a
+            # later append was opened with
+            self._write({"a": k, "c": None}, True)
         elif op == "w_zero":
             self._write({"n": None}, False)
         elif op == "w_zero_omitted":
@@ -192,6 +199,11 @@ class World:
                 schema = copy.deepcopy(self.schema)
             elif how == "diff":
                 schema = copy.deepcopy(S_OTHER)
+            elif how == "samecanon":
+                # same canonical form as the file's schema, other attributes (a default the file's schema does not have)
+                schema = copy.deepcopy(self.schema)
+                schema["fields"][1]["default"] = "dflt"
+                schema["fields"][0] = dict(schema["fields"][0], doc="changed")
             elif how == "codec":
                 kw["codec"] = "deflate" if self.codec != "deflate" else "null"
             elif how == "meta":
@@ -317,6 +329,16 @@ def run_unit(ci, tier):
     ops = ops_for(cfg, tier)
     depth = DEPTH[tier]
     res = UnitResult()
+    if cfg[1] not in ("null", "deflate", "bzip2", "xz"):
+        try:
+            World(fa, cfg).close()
+        except ValueError as e:
+            res.evals += 1
+            res.states = res.distinct = 1
+            res.stats["codec_spelling_refused_at_creation"] += 1
+            res.sample({"config": list(map(str, cfg)), "creation": f"ValueError: {e}"[:120]})
+            return res
+        depth = min(depth, 3)
     w0 = run_history(fa, cfg, [], res, None, check_all=True)
     seen = {w0.key_cached if w0.on_file else w0.state_key()}
     frontier = [[]]
